@@ -135,6 +135,7 @@ type Interp struct {
 	runeBytes        map[*sym.Term][]*sym.Term // per path: rune term → the valid UTF-8 bytes it was decoded from
 	NoRuneProvenance bool
 	NoByteEnum       bool
+	ForkSites        map[string]int
 	stubMemo         map[string]Str
 	fs               *fsState
 	parsed           []parsedFile
